@@ -198,9 +198,21 @@ def build_obj(term, counter, tensors, scalars, path=()):
     k = term[0]
     if k == "tensor":
         counter[0] += 1
-        t = torch.full((2,), float(counter[0]))
-        if counter[0] % 3 == 0:
-            t = torch.nn.Parameter(t, requires_grad=False)       # tensor subclass, as optimizers commonly hold
+        v, kind = float(counter[0]), counter[0] % 1000 % 7
+        if kind == 1:
+            t = torch.nn.Parameter(torch.full((2,), v), requires_grad=False)       # tensor subclass, as optimizers commonly hold
+        elif kind == 2:
+            t = (torch.arange(6, dtype=torch.float32).view(3, 2) + v).t()           # non-contiguous (transposed) buffer
+        elif kind == 3:
+            t = torch.tensor(v)                                                      # 0-D
+        elif kind == 4:
+            t = torch.zeros((0, 3))                                                  # no elements
+        elif kind == 5:
+            t = (torch.arange(8, dtype=torch.float64) + v)[1::2]                     # strided slice of a larger buffer
+        elif kind == 6:
+            t = torch.full((2, 2), int(counter[0]), dtype=torch.int64)               # integer state (step counters)
+        else:
+            t = torch.full((2,), v)
         tensors[path] = t
         return t
     if k == "scalar":
